@@ -85,6 +85,9 @@ class MergeExtractor(BaseExtractor):
                                             if cqt := extract_column_qualifier(
                                                 column_reference_optional
                                             ):
+                                                if j >= len(insert_columns):
+                                                    # more values than insert columns: nothing to wire them to
+                                                    break
                                                 src_col = Column(cqt.column)
                                                 src_col.parent = direct_source
                                                 holder.add_column_lineage(
